@@ -34,6 +34,9 @@ from comb_spec_searcher.strategies.rule import Rule
 
 # the random source used by world samplers (FiatVerified, WordAtom); set per run
 CURRENT_RNG = None
+# (repr(strategy), class key) for every application of a world strategy / factory
+# to a class since the simulator last cleared it (C17: "was the packet processed?")
+CALL_LOG = []
 
 
 class Wd(tuple, CombinatorialObject):
@@ -228,6 +231,7 @@ class MaskMixin:
         return self.decomposition_function(c) is not None
 
     def __call__(self, comb_class, children=None):
+        CALL_LOG.append((repr(self), comb_class.key()))
         if children is None and self.lazy:
             # buggify: legal alternative - the rule finds out lazily
             return Rule(self, comb_class)
@@ -373,13 +377,18 @@ class RemoveFront(MaskMixin, CartesianProductStrategy):
 class _Unary(MaskMixin, DisjointUnionStrategy):
     """Equivalence strategies: one child with exactly the same words."""
 
-    def __init__(self, mask=None, lazy=False, inferrable=True, possibly_empty=False):
+    def __init__(self, mask=None, lazy=False, inferrable=True, possibly_empty=False, two_way=True):
         super().__init__(ignore_parent=True, inferrable=inferrable, possibly_empty=possibly_empty, workable=True)
         self.mask = mask
         self.lazy = lazy
+        self.two_way = two_way
 
     def _args_repr(self):
-        return ""
+        return "" if self.two_way else "one_way"
+
+    def is_two_way(self, comb_class):
+        # declaring a rule one-way is always allowed (conservative)
+        return self.two_way
 
     def child(self, c):
         raise NotImplementedError
@@ -406,11 +415,13 @@ class _Unary(MaskMixin, DisjointUnionStrategy):
         return (obj,)
 
     def to_jsonable(self):
-        return self._base_json()
+        d = self._base_json()
+        d["two_way"] = self.two_way
+        return d
 
     @classmethod
     def from_dict(cls, d):
-        return cls(d.get("mask"), d.get("lazy", False))
+        return cls(d.get("mask"), d.get("lazy", False), two_way=d.get("two_way", True))
 
 
 class ReducePatterns(_Unary):
@@ -461,12 +472,12 @@ class MergeDuplicateStatistics(_Unary):
 class TrackLetter(_Unary):
     """tracked = () -> (a,): the child refines the parent; its statistic is summed out."""
 
-    def __init__(self, letter=0, mask=None, lazy=False):
-        super().__init__(mask=mask, lazy=lazy)
+    def __init__(self, letter=0, mask=None, lazy=False, two_way=True):
+        super().__init__(mask=mask, lazy=lazy, two_way=two_way)
         self.letter = letter
 
     def _args_repr(self):
-        return f"letter={self.letter}"
+        return f"letter={self.letter}" + ("" if self.two_way else ",one_way")
 
     def child(self, c):
         if c.tracked or c.just_prefix:
@@ -483,7 +494,7 @@ class TrackLetter(_Unary):
 
     @classmethod
     def from_dict(cls, d):
-        return cls(d["letter"], d.get("mask"), d.get("lazy", False))
+        return cls(d["letter"], d.get("mask"), d.get("lazy", False), d.get("two_way", True))
 
 
 class LetterPermutation(MaskMixin, SymmetryStrategy):
@@ -664,6 +675,7 @@ class ExpandFactory(StrategyFactory):
         return [Expand(d, mask=self.mask) for d in self.ds]
 
     def __call__(self, comb_class):
+        CALL_LOG.append((repr(self), comb_class.key()))
         for st in self.strategies():
             if self.as_rules:
                 if st.applies(comb_class):
@@ -710,10 +722,10 @@ class ExpandFactory(StrategyFactory):
 _STRATS = {
     "Expand": lambda s: Expand(s.get("d", 1), _mask(s), s.get("lazy", False)),
     "RemoveFront": lambda s: RemoveFront(_mask(s), s.get("lazy", False)),
-    "ReducePatterns": lambda s: ReducePatterns(_mask(s), s.get("lazy", False)),
-    "DropDeadStatistic": lambda s: DropDeadStatistic(_mask(s), s.get("lazy", False)),
-    "MergeDuplicateStatistics": lambda s: MergeDuplicateStatistics(_mask(s), s.get("lazy", False)),
-    "TrackLetter": lambda s: TrackLetter(s.get("letter", 0), _mask(s), s.get("lazy", False)),
+    "ReducePatterns": lambda s: ReducePatterns(_mask(s), s.get("lazy", False), two_way=s.get("two_way", True)),
+    "DropDeadStatistic": lambda s: DropDeadStatistic(_mask(s), s.get("lazy", False), two_way=s.get("two_way", True)),
+    "MergeDuplicateStatistics": lambda s: MergeDuplicateStatistics(_mask(s), s.get("lazy", False), two_way=s.get("two_way", True)),
+    "TrackLetter": lambda s: TrackLetter(s.get("letter", 0), _mask(s), s.get("lazy", False), s.get("two_way", True)),
     "LetterPermutation": lambda s: LetterPermutation(tuple(s["perm"]), _mask(s), s.get("lazy", False)),
     "WordAtom": lambda s: WordAtom(),
     "AtomStrategy": lambda s: AtomStrategy(),
